@@ -432,8 +432,10 @@ func c11AltTwin(c c11Case) c11Case {
 	var cp func(x *c11Chart, underTwin bool) *c11Chart
 	cp = func(x *c11Chart, underTwin bool) *c11Chart {
 		n := *x
-		if underTwin {
-			n.Alias = ""
+		if underTwin && n.Alias != "" {
+			// the first copy's processing renamed the shared declaration to the alias: below the second copy no chart
+			// carries that name any more, so the chart keeps its own name and no rule of the declaration reaches it
+			n.Alias, n.Cond, n.Tags = "", "", nil
 		}
 		n.Deps = nil
 		for _, d := range x.Deps {
@@ -469,6 +471,8 @@ func c11Judge(tb vt.TB, c c11Case) (lbls []string, nontrivial bool) {
 		sig := "C11:install-failed/" + c11ErrClass(got.err)
 		if altDiffers && alt.reject && strings.Contains(sig, "schema-of-chart") {
 			sig = c11AliasSig
+		} else if tw := c11Expected(c11AltTwin(c)); tw.reject && strings.Contains(sig, "schema-of-chart") {
+			sig = c11TwinSig
 		}
 		vt.Violation(tb, sig, fmt.Sprintf("%v\n%s", got.err, detail()), c)
 		return lbls, false
